@@ -33,6 +33,13 @@ ASSUMPTIONS = [
 
 
 MUTANTS = [
+    ("own-pixel selector inverted", "AegeanTools/source_finder.py",
+     "        own = l[xmin:xmax, ymin:ymax] == i + 1",
+     "        own = l[xmin:xmax, ymin:ymax] != i + 1", "C02-R3"),
+    ("islands kept only when nothing is left of them",
+     "AegeanTools/source_finder.py",
+     "        if not np.any(np.isfinite(data_box)):",
+     "        if np.any(np.isfinite(data_box)):", "C02-R12"),
     ("forced noise level overwritten by the estimate",
      "AegeanTools/source_finder.py",
      "        if forced_rms is None:\n            self.global_data.rmsimg = rms",
@@ -328,6 +335,71 @@ def run(ctx):
                   node=setm[0] if setm else m.loop)
     r8_loop(ctx, prog, m)
     r9_background(ctx, prog)
+    # ---------------------------------------------------------------- R12
+    from .. import concrete as _c12
+    ctx.rule("C02-R12", "an island is skipped after blanking exactly when "
+             "no finite pixel is left: the skipping test over "
+             "isfinite(<blanked box>) is interpreted for a box with and "
+             "without finite pixels")
+    n12 = 0
+    from ..core import expand_locals as _xl12
+    blanked = {norm(st.targets[0].value) for st in ast.walk(m.loop)
+               if isinstance(st, ast.Assign) and
+               isinstance(st.targets[0], ast.Subscript) and
+               norm(st.value).split(".")[-1] in ("nan", "NaN", "NAN")}
+    import copy as _cp12
+
+    def _subst12(test):
+        # named intermediates of the blanked box (unmasked = isfinite(box))
+        defs = {}
+        for a_ in ast.walk(m.loop):
+            if isinstance(a_, ast.Assign) and len(a_.targets) == 1 and \
+                    isinstance(a_.targets[0], ast.Name):
+                defs.setdefault(a_.targets[0].id, []).append(a_.value)
+
+        class _S(ast.NodeTransformer):
+            def visit_Name(self, nd):
+                if nd.id not in blanked and len(defs.get(nd.id, [])) == 1 \
+                        and any(isinstance(x, ast.Name) and x.id in blanked
+                                for x in ast.walk(defs[nd.id][0])):
+                    return _cp12.deepcopy(defs[nd.id][0])
+                return nd
+        return ast.fix_missing_locations(_S().visit(_cp12.deepcopy(test)))
+    for st in ast.walk(m.loop):
+        if not (isinstance(st, ast.If) and st.body and
+                isinstance(st.body[-1], ast.Continue)):
+            continue
+        test = _subst12(st.test)
+        hit = [x for x in ast.walk(test) if isinstance(x, ast.Name) and
+               x.id in blanked]
+        if not hit or not any(
+                isinstance(c_, ast.Call) and norm(c_.func).split(".")[-1] in
+                ("isfinite", "isnan") for c_ in ast.walk(test)):
+            continue
+        arg = hit[0].id
+        n12 += 1
+        bad12 = []
+        nan = float("nan")
+        try:
+            for smp, want in (([nan, nan, nan], True),
+                              ([nan, 2.0, nan], False),
+                              ([1.0, 2.0, 3.0], False)):
+                got = bool(_c12.ev(test, {arg: smp}))
+                if got != want:
+                    bad12.append((smp, got))
+        except _c12.Unknown as e:
+            ctx.unknown_site("C02-R12", fi, "emptiness test %s not "
+                             "interpreted (%s)" % (norm(test, 50), e), node=st)
+            continue
+        ctx.check("C02-R12", fi, "skip iff nothing finite is left: " +
+                  norm(test, 50), not bad12,
+                  "for the blanked box %s the island is %s" %
+                  ((bad12[0][0], "skipped" if bad12[0][1] else "kept")
+                   if bad12 else ("", "")), node=st)
+    if n12 == 0:
+        ctx.unknown_site("C02-R12", fi, "no `if <no finite pixel left>: "
+                         "continue` test found in the island loop",
+                         node=m.loop)
     # islands are found in the maps that were GIVEN: a forced noise level /
     # background is not replaced by the internal estimate (shared with
     # C01-R9)
@@ -371,11 +443,40 @@ def run(ctx):
                   "bright pixel of a neighbouring island inside the box "
                   "seeds an island none of whose own pixels exceeds the "
                   "seed threshold", node=c)
+    # ... and to the island's OWN label: a selector defined with
+    # `labels != id` picks the pixels of every other group in the box
+    def _polarity_bad(e):
+        for x in ast.walk(e):
+            if isinstance(x, ast.Name):
+                for st in ast.walk(m.loop):
+                    if isinstance(st, ast.Assign) and any(
+                            isinstance(t, ast.Name) and t.id == x.id
+                            for t in st.targets) and \
+                            isinstance(st.value, ast.Compare) and \
+                            len(st.value.ops) == 1 and \
+                            isinstance(st.value.ops[0], ast.NotEq) and \
+                            m.label_compare(st.value):
+                        return st
+            if isinstance(x, ast.Compare) and len(x.ops) == 1 and \
+                    isinstance(x.ops[0], ast.NotEq) and m.label_compare(x):
+                return x
+        return None
+    for c in seeds:
+        operand = c.left if norm(c.comparators[0]) == seed_p \
+            else c.comparators[0]
+        b_ = _polarity_bad(operand)
+        ctx.check("C02-R3", fi, "seed test selects the own label: " +
+                  norm(operand, 60), b_ is None,
+                  "the selector `%s` is true for the pixels that do NOT "
+                  "carry the island's label: the seed test looks at the "
+                  "other groups in the box" % (norm(b_, 60) if b_ is not None
+                                               else ""), node=c)
     wheres = [c for c in ast.walk(m.loop) if isinstance(c, ast.Call) and
               norm(c.func) in ("np.where", "numpy.where", "np.nonzero")]
     for c in wheres:
         ctx.check("C02-R3", fi, "pixel list " + norm(c, 70),
-                  m.restricted(c.args[0], own) if c.args else False,
+                  (m.restricted(c.args[0], own) and
+                   _polarity_bad(c.args[0]) is None) if c.args else False,
                   "the pixel list used for the region test contains the "
                   "pixels of other islands inside the bounding box",
                   node=c)
